@@ -28,6 +28,8 @@ transformations
   T37 `for ...: if c: BODY` -> `for ...: if not c: continue; BODY`
   T40 `except (A, B):` -> two handlers with the same body
   T42 trailing positional arguments of calls to module-level functions of the same module passed by keyword
+  T52 the whole function body wrapped in `try: ... finally: pass`
+  T56 the first argument of a call statement computed into a temporary first
 """
 import ast, copy, io, json, os, shutil, sys, tempfile, time
 from concurrent.futures import ProcessPoolExecutor
@@ -539,7 +541,65 @@ def t42_keyword_calls(fn, defs=None):
     return k
 
 
-TRANSFORMS = {'T35': t35_isinstance_split, 'T36': t36_hoist_kind, 'T37': t37_guard_continue, 'T40': t40_split_handlers, 'T42': t42_keyword_calls,
+def t52_wrap_try_finally(fn):
+    if any(isinstance(n, (ast.Yield, ast.YieldFrom)) for n in own_nodes(fn)) and False:
+        return 0
+    body = fn.body
+    start = 1 if (body and isinstance(body[0], ast.Expr) and isinstance(body[0].value, ast.Constant) and isinstance(body[0].value.value, str)) else 0
+    # keep global/nonlocal declarations in front
+    while start < len(body) and isinstance(body[start], (ast.Global, ast.Nonlocal)):
+        start += 1
+    rest = body[start:]
+    if not rest:
+        return 0
+    fn.body = body[:start] + [ast.Try(body=rest, handlers=[], orelse=[], finalbody=[ast.Pass()])]
+    return 1
+
+
+def t56_hoist_first_argument(fn):
+    """`r = f(g(x), ...)` -> `_a = g(x); r = f(_a, ...)` for simple statements whose value is a call with a non-trivial first argument and
+    a side-effect-free callee expression (a name or attribute chain)"""
+    k = 0
+
+    def simple_callee(e):
+        while isinstance(e, ast.Attribute):
+            e = e.value
+        return isinstance(e, ast.Name)
+    for n in [fn] + own_nodes(fn):
+        for field in ('body', 'orelse', 'finalbody'):
+            blk = getattr(n, field, None)
+            if not isinstance(blk, list):
+                continue
+            new = []
+            for s in blk:
+                call = None
+                if isinstance(s, (ast.Assign, ast.Return, ast.Expr)) and isinstance(getattr(s, 'value', None), ast.Call):
+                    call = s.value
+                if call is not None and simple_callee(call.func) and call.args and isinstance(call.args[0], (ast.Call, ast.Subscript, ast.BinOp, ast.Attribute)) \
+                        and not any(isinstance(x, (ast.Yield, ast.YieldFrom, ast.Await, ast.NamedExpr, ast.Starred)) for x in ast.walk(call.args[0])) \
+                        and not isinstance(call.args[0], ast.Starred):
+                    tmp = '_a%d' % k
+                    new.append(ast.Assign(targets=[ast.Name(id=tmp, ctx=ast.Store())], value=call.args[0], lineno=0))
+                    call.args[0] = ast.Name(id=tmp, ctx=ast.Load())
+                    k += 1
+                new.append(s)
+            setattr(n, field, new)
+    return k
+
+
+def t53_wrap_if_true(fn):
+    body = fn.body
+    start = 1 if (body and isinstance(body[0], ast.Expr) and isinstance(body[0].value, ast.Constant) and isinstance(body[0].value.value, str)) else 0
+    while start < len(body) and isinstance(body[start], (ast.Global, ast.Nonlocal)):
+        start += 1
+    rest = body[start:]
+    if not rest:
+        return 0
+    fn.body = body[:start] + [ast.With(items=[ast.withitem(context_expr=ast.Call(func=ast.Attribute(value=ast.Name(id='contextlib', ctx=ast.Load()), attr='nullcontext', ctx=ast.Load()), args=[], keywords=[]), optional_vars=None)], body=rest)]
+    return 1
+
+
+TRANSFORMS = {'T56': t56_hoist_first_argument, 'T52': t52_wrap_try_finally, 'T35': t35_isinstance_split, 'T36': t36_hoist_kind, 'T37': t37_guard_continue, 'T40': t40_split_handlers, 'T42': t42_keyword_calls,
               'T10': t10_rename_self, 'T13': t13_comprehensions, 'T14': t14_ifexp_to_if, 'T16': t16_swap_kind_compare, 'T19': t19_swap_assigns,
               'T20': t20_de_morgan, 'T25': t25_explicit_return_none, 'T27': t27_unaugment,
               'T1': t1_rename, 'T2': t2_negate, 'T3': t3_extract_return, 'T4': t4_else_rest, 'T5': t5_split_and, 'T6': t6_iter_temp,
